@@ -14,6 +14,7 @@ import (
 )
 
 type c18Item struct {
+	Mode       string `json:"mode,omitempty"` // exploration mode override (long inputs)
 	Name       string `json:"name"`
 	Corruption string `json:"corruption"`
 	Call       Call   `json:"call"`
@@ -233,6 +234,33 @@ func c18Items() []c18Item {
 		c.Target = v
 		add("topranking-csv", "target:"+k, c)
 	}
+	// ---- corruption late in an input that is longer than the channel buffers (50+threads, NumCPU+50):
+	// the error has to get through while the stages are blocked on full buffers
+	{
+		big := []string{}
+		for i := 0; i < 60; i++ {
+			q := []byte(g12)
+			q[i%12] = "ACGT"[(i/12+1+strings.IndexByte("ACGT", g12[i%12]))%4]
+			big = append(big, fmt.Sprintf("q%02d", i), string(q))
+		}
+		for _, at := range []int{54, 59} {
+			bad := append([]string{}, big...)
+			bad[2*at+1] = bad[2*at+1][:11]
+			for _, cmd := range []string{"snps", "list"} {
+				items = append(items, c18Item{Name: fmt.Sprintf("%s/alignment:short-row-%d-of-60", cmd, at+1), Corruption: fmt.Sprintf("alignment:short-row-%d-of-60", at+1), Mode: "D1M0",
+					Call: Call{Cmd: cmd, Ref: fastaOf("ref", g12), Msa: fastaOf(bad...), Threads: 2, NCPU: 2}})
+			}
+			items = append(items, c18Item{Name: fmt.Sprintf("variants-gb/alignment:short-row-%d-of-60", at+1), Corruption: fmt.Sprintf("alignment:short-row-%d-of-60", at+1), Mode: "D1M0",
+				Call: Call{Cmd: "variants", Msa: fastaOf(append([]string{"ref", g12}, bad...)...), RefID: "ref", Anno: gb, AnnoSuffix: "gb", Threads: 2, NCPU: 2}})
+			var srecs []SamRec
+			for i := 0; i < 60; i++ {
+				srecs = append(srecs, SamRec{Name: big[2*i], Pos: 1, Cigar: parseCigar("12M"), Seq: big[2*i+1]})
+			}
+			srecs[at].Seq = srecs[at].Seq[:11]
+			items = append(items, c18Item{Name: fmt.Sprintf("toma/sam-bad-record-%d-of-60", at+1), Corruption: fmt.Sprintf("sam-bad-record-%d-of-60", at+1), Mode: "D1M0",
+				Call: Call{Cmd: "toma", Sam: samText(12, srecs), Threads: 2, NCPU: 2}})
+		}
+	}
 	// ---- binary-only items
 	bin := func(cmd, corr string, c Call, it c18Item) {
 		it.Name, it.Corruption, it.Call, it.BinaryOnly = cmd+"/"+corr, corr, c, true
@@ -264,6 +292,9 @@ func c18Items() []c18Item {
 }
 
 func (it c18Item) scenario(mode string) Scenario {
+	if it.Mode != "" {
+		mode = it.Mode
+	}
 	return Scenario{Name: it.Name, Family: strings.SplitN(it.Name, "/", 2)[0], Call: it.Call, Mode: mode}
 }
 
@@ -334,6 +365,9 @@ func init() {
 			if tier == "thorough" {
 				for _, it := range items {
 					if !it.BinaryOnly {
+						if it.Mode != "" {
+							continue
+						}
 						sc := it.scenario(mode)
 						sc.Name += "/t3"
 						sc.Call.Threads, sc.Call.NCPU = 3, 3
@@ -347,7 +381,7 @@ func init() {
 	register(&Prop{
 		ID:    "C18",
 		Level: "model_checking",
-		Rule: "for each command a valid 3-record base input and each listed corruption at each position it can take (short/long row and non-IUPAC symbol in the first/middle/last record of each FASTA input; empty file; no leading header; empty, header-less and malformed-record SAM; reference wider/narrower, with two records, empty, or with a bad symbol; query/target widths differ; empty CSV, wrong header, header only, short row, bad count; windows beyond the reference or start > end; reference ID absent; stdin reference not first; topranking without size/dist option): every execution of the real entry point (2 workers; thorough also 3), all interleavings and map orders, pruned only by happens-before equivalence, under the controlled scheduler must end in returned(non-nil error) (or a panic = exit status 2) - returned(nil) and deadlock are violations; then every item, plus the command-line-only ones (unknown annotation suffix, window 0, missing files), through the real binary: exit status must be non-zero within 30 s. " +
+		Rule: "for each command a valid 3-record base input and each listed corruption at each position it can take (short/long row and non-IUPAC symbol in the first/middle/last record of each FASTA input; empty file; no leading header; empty, header-less and malformed-record SAM; reference wider/narrower, with two records, empty, or with a bad symbol; query/target widths differ; empty CSV, wrong header, header only, short row, bad count; windows beyond the reference or start > end; reference ID absent; stdin reference not first; topranking without size/dist option; a short row / bad SAM record at position 55 or 60 of a 60-record input, beyond the channel buffers, explored with <=1 non-default scheduling choice): every execution of the real entry point (2 workers; thorough also 3), all interleavings and map orders, pruned only by happens-before equivalence, under the controlled scheduler must end in returned(non-nil error) (or a panic = exit status 2) - returned(nil) and deadlock are violations; then every item, plus the command-line-only ones (unknown annotation suffix, window 0, missing files), through the real binary: exit status must be non-zero within 30 s. " +
 			"A case is one execution or one binary run; non-trivial = refused; each generated once",
 		Assumptions: []string{
 			"a panic is counted as refusal for this property (exit status 2); panics on malformed FASTA are C16's subject",
